@@ -51,7 +51,7 @@ def conditions(tier):
     labels = pipe.TYPE_LABELS + ['...']
     cont_cb = tuple(i for i in range(NT) if set(pipe.type_tags(i)) & set(('cont', 'cb')) and
                     'wkcb' not in pipe.type_tags(i))
-    T = 110 if quick else 1500
+    T = 200 if quick else 1500
 
     # ---- value_basic ---------------------------------------------------------------
     ckinds = range(5)
